@@ -713,24 +713,42 @@ class PyGraph(Val):
         return self.adj(k), None
 
 
+# canonical graph view of a defaultdict(RefCount): the functions take the array
+# term itself as first argument, so the same index state denotes the same view
+# (same enumeration, same reachability symbol) wherever it is mentioned.
+_DDA = z3.ArraySort(V, z3.ArraySort(V, IntS))
+DD_n = z3.Function("dd_adj_n", _DDA, V, IntS)
+DD_at = z3.Function("dd_adj_at", _DDA, V, IntS, V)
+DD_idx = z3.Function("dd_adj_idx", _DDA, V, V, IntS)
+DD_R = z3.Function("dd_reach", _DDA, V, V, BoolS)
+
+
 def graph_of_ddict(dd, hint="rt"):
     """View a defaultdict(RefCount) as the graph `toposort` walks: adj(v) is an
     arbitrary duplicate-free enumeration of the support of dd[v]."""
-    n = FreshFun(hint + "_n", V, IntS)
-    at = FreshFun(hint + "_at", V, IntS, V)
-    idx = FreshFun(hint + "_idx", V, V, IntS)
-    x, y = z3.Consts("x!gd y!gd", V)
+    A = dd.arr
+    n = lambda v: DD_n(A, v)
+    at = lambda v, k: DD_at(A, v, k)
+    idx = lambda v, w: DD_idx(A, v, w)
+    R = lambda a, b: DD_R(A, a, b)
+    x, y, z = z3.Consts("x!gd y!gd z!gd", V)
     i = z3.Int("i!gd")
-    cnt = lambda a, b: z3.Select(z3.Select(dd.arr, a), b)
+    cnt = lambda a, b: z3.Select(z3.Select(A, a), b)
     ax = [
+        z3.ForAll([x], n(x) >= 0, patterns=[n(x)]),
+        z3.ForAll([x], R(x, x), patterns=[R(x, x)]),
+        z3.ForAll([x, y, z], z3.Implies(z3.And(R(x, y), R(y, z)), R(x, z)),
+                  patterns=[z3.MultiPattern(R(x, y), R(y, z))]),
+        z3.ForAll([x, i], z3.Implies(z3.And(0 <= i, i < n(x)), R(x, at(x, i))), patterns=[at(x, i)]),
+        z3.ForAll([x, y], z3.Implies(cnt(x, y) > 0, R(x, y)), patterns=[cnt(x, y)]),
         z3.ForAll([x, i], z3.Implies(z3.And(0 <= i, i < n(x)),
                                      z3.And(cnt(x, at(x, i)) > 0, idx(x, at(x, i)) == i)),
                   patterns=[at(x, i)]),
         z3.ForAll([x, y], z3.Implies(cnt(x, y) > 0,
                                      z3.And(0 <= idx(x, y), idx(x, y) < n(x), at(x, idx(x, y)) == y)),
-                  patterns=[idx(x, y)]),
+                  patterns=[idx(x, y), cnt(x, y)]),
     ]
-    g = PyGraph.make(n, at, hint, ax)
+    g = PyGraph(n, at, R, ax)
     g.idx_ = idx
     g.source = dd
     return g
